@@ -308,7 +308,7 @@ def harness(ctx):
     exe, log = ctx.cc('h_messageq_conc', [os.path.join(vlib.VERIF, 'harness/h_messageq_conc.c'), R + '/librfn/messageq.c'],
                       ['-I' + os.path.join(vlib.VERIF, 'harness/shim_mq'), '-pthread'])
     if not exe:
-        raise vlib.Infra('messageq interleaving harness does not compile against the repository: ' + log[-1500:])
+        raise vlib.Unbuildable('messageq interleaving harness does not compile against the repository: ' + log[-1500:])
     return exe
 
 
